@@ -194,12 +194,14 @@ CHECKS = {
                 "the DIMACS family and solver logs (Hoare logic over the parser-program semantics, CnfSafe.v): for every byte string and "
                 "every terminal event every admissible run ends with a value — never an advance beyond the scanned offsets, never the "
                 "column-subtraction underflow or any other panic, every loop makes progress — hence every concrete run is CDone; the "
-                "same for the AIGER ascii/binary and BTOR2 parsers (AigerSafe.v, Btor2Safe.v). PARTIAL: heap and stack (pre-allocation "
-                "from header counts, recursion) are runtime behaviour, measured by the safe oracle (debug assertions and overflow checks "
-                "on, counting allocator, time limit), not modelled.",
+                "same for the AIGER ascii/binary and BTOR2 parsers (AigerSafe.v, Btor2Safe.v). The pre-allocation sizes of the AIGER whole-file parsers are regenerated from "
+                "the source on every run (translator section prealloc, which also enumerates every size-driven allocation site of the four "
+                "crates and refuses unknown ones) and proved bounded by a constant for every header (Prealloc.v). PARTIAL: heap growth "
+                "and stack are runtime behaviour, measured by the safe oracle (debug assertions and overflow checks "
+                "on, counting allocator, time limit, hostile declared counts per section), not modelled.",
         "design_ref": "DESIGN.md 2/C05",
         "note": "Trusted: as C02/C12/C13. Defects D4, D5, D7 (overflow, unbounded pre-allocation) were found by this check and fixed.",
-        "technique": "Coq proof (termination measures, safety invariants) + model/implementation correspondence + resource-measuring oracle",
+        "technique": "Coq proof (termination measures, safety invariants, pre-allocation bound over sizes translated from the source) + model/implementation correspondence + resource-measuring oracle",
     },
     "C06": {
         "text": "Coq theorems (Props/C06.v): every admissible run of the unsigned and signed scanner programs returns exactly the "
